@@ -85,6 +85,20 @@ func (p *Prog) DescribeFuncValue(v ssa.Value) string {
 		if x.Op == token.MUL {
 			switch a := x.X.(type) {
 			case *ssa.FieldAddr:
+				// a context-object field set once, where the object is built,
+				// from a parameter of the enclosing function is what a closure
+				// would have captured
+				if st := p.onceStoredField(x); st != nil {
+					if q, isP := st.Val.(*ssa.Parameter); isP {
+						for _, a := range p.Anchors(x.Parent()) {
+							for e := p.Encloser(a); e != nil; e = p.Encloser(e) {
+								if q.Parent() == e {
+									return "freevar:" + p.ParamName(q)
+								}
+							}
+						}
+					}
+				}
 				return "field:" + FieldOwnerName(a.X.Type(), a.Field)
 			case *ssa.FreeVar:
 				return "freevar:" + p.FreeVarName(a)
